@@ -13,7 +13,8 @@
    tokio_stream Fuse (tonic EncodedBytes.source)      [poll_fused]
    one poll of the client's Streaming: EncodedBytes   [next_client]
      polls the source until it is not ready
-   HealthReporter::set_service_status                 [step _ (SetS n v)]
+   HealthReporter::set_service_status                 [step _ (SetS n v)]      = SetBy n (Direct v)
+   HealthReporter::set_serving::<S> / set_not_serving [step _ (SetServing NAME)] / (SetNotServing NAME)
    HealthReporter::clear_service_status               [step _ (Clear n)]
    HealthService::check / watch                       [step _ (Check n)] / [step _ (Watch n)]
 
@@ -123,16 +124,29 @@ Definition get_chan (s : state) (id : nat) : chan := nth id (chans s) dchan.
 (* HealthReporter::new: the empty name is SERVING *)
 Definition init : state := mkSt [new_chan Serving] [([], O)] [].
 
+(* How a status is set.  [Direct v]: set_service_status(name, v).  [ViaServing] /
+   [ViaNotServing]: set_serving::<S>() / set_not_serving::<S>(), which call
+   set_service_status(<S as NamedService>::NAME, Serving / NotServing); the type parameter S is
+   represented by its NAME. *)
+Inductive setter : Type := Direct (v : status) | ViaServing | ViaNotServing.
+Definition setter_status (k : setter) : status :=
+  match k with Direct v => v | ViaServing => Serving | ViaNotServing => NotServing end.
+Coercion setter_status : setter >-> status.
+
 Inductive op : Type :=
-| SetS (n : name) (v : status)
+| SetBy (n : name) (k : setter)
 | Clear (n : name)
 | Check (n : name)
 | Watch (n : name)
 | Next (w : nat).
 
+Notation SetS n v := (SetBy n (Direct v)).
+Notation SetServing n := (SetBy n ViaServing).
+Notation SetNotServing n := (SetBy n ViaNotServing).
+
 Definition step (s : state) (o : op) : state * out :=
   match o with
-  | SetS n v =>
+  | SetBy n v =>
       match lookup n (svcs s) with
       | Some id =>
           (* tx.send(status).expect("channel should not be closed") *)
